@@ -88,12 +88,12 @@ class OrientedLine:
 
     Returns:
       str : if line is a string, then line; if it is a line instance,
-            then line.name
+            then line.name; None if it is an object without a name
     """
     if isinstance(self.__line, str):
       return self.__line
     else:
-      return self.__line.name
+      return getattr(self.__line, "name", None)
 
   def validate(self):
     """Validate the content of the instance
